@@ -434,17 +434,23 @@ Section Real.
 
   (* ---------- where the class is provably empty ---------- *)
 
-  (* the osu!-mode Catmull surplus of the slider's path is not negative *)
+  (* the osu!-mode Catmull surplus of the slider's path is not negative ... *)
   Definition slider_surplus_nn (s : Slider) : Prop :=
     surplus_nn lm Curve.bezier_fuel (sl_mode s) (map CurveDist.conv_pcp (sl_control_points s)).
+  (* ... or it is finite and outweighed by a single segment of the path *)
+  Definition slider_surplus_ok (s : Slider) : Prop :=
+    surplus_outweighed lm Curve.bezier_fuel (sl_mode s) (map CurveDist.conv_pcp (sl_control_points s)).
 
-  Lemma slider_dist_nn s d : slider_img s -> slider_surplus_nn s ->
+  Lemma slider_surplus_nn_ok s : slider_surplus_nn s -> slider_surplus_ok s.
+  Proof. apply surplus_nn_outweighed. Qed.
+
+  Lemma slider_dist_nn s d : slider_img s -> slider_surplus_ok s ->
     dist_of_curve lm (sl_mode s) (sl_control_points s) (sl_expected_dist s) = Done d -> nn64 d = true.
   Proof.
     intros (_ & He) Hs. unfold dist_of_curve, curve_of.
     destruct (Curve.curve_L1 lm Curve.bezier_fuel (sl_mode s) (map CurveDist.conv_pcp (sl_control_points s))
                 (sl_expected_dist s)) as [c| |] eqn:Ec; cbn [obind]; try discriminate.
-    intros [= <-]. exact (curve_dist_nn lm _ _ _ _ c He Hs Ec).
+    intros [= <-]. exact (curve_dist_nn_outweighed lm _ _ _ _ c He Hs Ec).
   Qed.
 
   (* syntactic: not (osu! mode and a Catmull control point) *)
@@ -462,22 +468,22 @@ Section Real.
     destruct (pt_kind t =? 1); [reflexivity|]. destruct (pt_kind t =? 2); reflexivity.
   Qed.
 
-  Lemma not_osu_catmull_surplus s : osu_catmull s = false -> slider_surplus_nn s.
+  Lemma not_osu_catmull_surplus s : osu_catmull s = false -> slider_surplus_ok s.
   Proof.
-    intros H. apply surplus_nn_outside. rewrite has_catmull_conv. exact H.
+    intros H. apply slider_surplus_nn_ok. apply surplus_nn_outside. rewrite has_catmull_conv. exact H.
   Qed.
 
-  Definition obj_surplus_nn (h : HitObject) : Prop :=
-    match h_kind h with KSlider s => slider_surplus_nn s | _ => True end.
+  Definition obj_surplus_ok (h : HitObject) : Prop :=
+    match h_kind h with KSlider s => slider_surplus_ok s | _ => True end.
 
   Lemma surplus_class_empty m : map_shape dreal m ->
-    Forall obj_surplus_nn (hov_hit_objects (bmv_ho m)) -> neg_dist_class lm m = false.
+    Forall obj_surplus_ok (hov_hit_objects (bmv_ho m)) -> neg_dist_class lm m = false.
   Proof.
     intros (_ & Hf) Hs. unfold neg_dist_class.
     replace (existsb (neg_dist_slider lm) (hov_hit_objects (bmv_ho m))) with false; [apply andb_false_r|].
     symmetry. apply not_true_is_false. intros E. apply existsb_exists in E. destruct E as (h & Hin & Hh).
     rewrite Forall_forall in Hf, Hs. specialize (Hf h Hin). specialize (Hs h Hin).
-    unfold neg_dist_slider, obj_fin, obj_surplus_nn in *.
+    unfold neg_dist_slider, obj_fin, obj_surplus_ok in *.
     destruct (h_kind h) as [ci|s|sp|hd]; try discriminate.
     destruct Hf as (Hi & _).
     destruct (dist_of_curve lm (sl_mode s) (sl_control_points s) (sl_expected_dist s)) as [d| |] eqn:Ed;
@@ -487,7 +493,7 @@ Section Real.
 
   Theorem encode_no_panic_surplus lines bv w :
     decode_beatmap (dist_of_curve lm) lines = Done bv ->
-    Forall obj_surplus_nn (hov_hit_objects (bmv_ho bv)) ->
+    Forall obj_surplus_ok (hov_hit_objects (bmv_ho bv)) ->
     encode_tokens dreal ereal bv <> Panic w.
   Proof.
     intros H Hs. apply (encode_no_panic_outside lines bv w H).
@@ -510,7 +516,7 @@ Section Real.
       replace (g_mode (hov_general (bmv_ho bv)) =? 0) with false by lia.
       replace (g_mode (hov_general (bmv_ho bv)) =? 2) with false by lia. reflexivity.
     - apply (encode_no_panic_surplus lines bv w H).
-      apply Forall_forall. intros h Hin. unfold obj_surplus_nn.
+      apply Forall_forall. intros h Hin. unfold obj_surplus_ok.
       destruct (h_kind h) as [ci|s|sp|hd] eqn:Ek; try exact I.
       apply not_osu_catmull_surplus.
       destruct (osu_catmull s) eqn:E; [|reflexivity].
